@@ -221,8 +221,9 @@ def plan(tier):
             for cfg in _cfgs('S1', seq, integer, tier)[:1]:
                 tasks.append(dict(harness='fresh', cfg=cfg, opts=opts))
     # fixed-income tree with a zero-price episode, no commission, no bid/offer: zero-cost trades must still refresh notionals and weights
-    for seq in [(['next'], ['transact', 'a']), (['next'], ['transact', 'b']), (['transact', 'a'], ['transact', 'c']), (['next'], ['adjust'])]:
-        for integer in (0, 1):
+    fseqs = [(['next'], ['transact', 'a']), (['next'], ['transact', 'b']), (['transact', 'a'], ['transact', 'c']), (['next'], ['adjust'])]
+    for seq in (fseqs[:1] if quick else fseqs):
+        for integer in ((0,) if quick else (0, 1)):
             cfg = dict(shape='F1', int=integer, fee=['none', None], spread=0, ops=[list(o) for o in seq], mult=1, pgrid='zeroa', ndates=4,
                        fresh_nodes=['', 'a', 'c'])
             tasks.append(dict(harness='fresh', cfg=cfg, opts=opts))
